@@ -93,6 +93,8 @@ bool S_buffer(const uint8_t* p, size_t n, RV& out, bool* has_nul);
 enum Verdict { REJECT = 0, ACCEPT = 1, UNKNOWN = 2 };
 // lenient dialect L (superset of everything the property lets the library accept)
 Verdict L_buffer(const uint8_t* p, size_t n, bool require_nul);
+// offset just behind the first value under the lenient dialect (BOM and leading whitespace skipped); -1: no value / not decidable
+long L_value_end(const uint8_t* p, size_t n, bool skip_bom);
 bool valid_utf8(const std::string& s);
 bool RV_parse_lenient(const std::string& text, RV& out);   // lenient dialect, whole text
 std::string rv_ser(const RV& v);                           // loss-free serialisation of a reference value (case descriptors)
